@@ -149,9 +149,23 @@ def register(db):
         params={"cls": "opaque:type", "xml_vars": "seq[u:XmlVar]", "key": "str", "value": "u:Json|None"},
         ensures=[("a-wrapper-match-has-the-wrapped-value",
                   "implies(result is not None and result.local_name != key, "
-                  "result.wrapper == key and isinstance(value, dict) and uf('Json.has', 'bool', some(value), result.local_name))")],
+                  "result.wrapper == key and isinstance(value, dict) and uf('Json.has', 'bool', some(value), result.local_name))"),
+                 # which field a key selects: by its local name when the value's array-ness fits the field
+                 ("a-name-match-fits-the-array-ness-of-the-field",
+                  "implies(result is not None and result.local_name == key, "
+                  "isinstance(value, list) == (result.list_element or result.tokens))"),
+                 ("the-selected-field-is-one-of-the-class", "implies(result is not None, exists('int', lambda j: 0 <= j and j < len(xml_vars) and xml_vars[j] is result))"),
+                 ("the-first-fitting-field-wins",
+                  "implies(result is not None, forall('int', lambda j: implies(0 <= j and j < len(xml_vars) and xml_vars[j].local_name == key and "
+                  "isinstance(value, list) == (xml_vars[j].list_element or xml_vars[j].tokens), "
+                  "exists('int', lambda i: 0 <= i and i <= j and xml_vars[i] is result))))"),
+                 ("no-field-only-if-no-name-match-fits",
+                  "implies(result is None, forall('int', lambda j: implies(0 <= j and j < len(xml_vars), "
+                  "not (xml_vars[j].local_name == key and isinstance(value, list) == (xml_vars[j].list_element or xml_vars[j].tokens)))))")],
         raises={}, returns="u:XmlVar|None",
-        loops=[Loop(invariants=[], header="xml_vars")],
+        loops=[Loop(invariants=["forall('int', lambda j: implies(0 <= j and j < _i, "
+                                "not (xml_vars[j].local_name == key and isinstance(value, list) == (xml_vars[j].list_element or xml_vars[j].tokens))))"],
+                    header="xml_vars")],
         call_default=True,
         call_ensures=["result == uf('DictDecoder.find_var', 'u:XmlVar|None', xml_vars, key, value)",
                       "implies(result is not None and result.local_name != key, "
@@ -164,6 +178,16 @@ def register(db):
         params={"self": decoder, "data": "u:Json|None", "clazz": "u:type|None"},
         ensures=[], raises=dict(DOCUMENTED), properties=P,
         note="any JSON document: object, array, string, number, true/false/null",
+    ))
+    db.add(Contract(
+        f"{DD}.decode", variant="object-document",
+        params={"self": decoder, "data": "u:Json|None", "clazz": "u:type|None"},
+        requires=["not isinstance(data, list)"],
+        ensures=[("the-document-is-bound-once-to-the-verified-class",
+                  "called('DictDecoder.verify_type') == 1 and called('DictDecoder.bind_dataclass') == 1 and "
+                  "call_arg('DictDecoder.bind_dataclass', 1) == data and call_arg('DictDecoder.verify_type', 1) == clazz and "
+                  "call_arg('DictDecoder.verify_type', 2) == data")],
+        raises=dict(DOCUMENTED), properties=["C04"],
     ))
     # ------------------------------------------------------------------ bind_dataclass: any dict of JSON values
     db.add(Contract(
@@ -186,6 +210,27 @@ def register(db):
         ensures=[], raises=dict(DOCUMENTED), returns="u:Any", properties=P,
         assumes=["implies(var.list_element, var.factory is not None)"],
         note="any JSON value for any field kind",
+    ))
+    # dispatch of bind_value: which binder a JSON value of which shape reaches (C04 / C10: the decoded object is built
+    # from the right pieces), with the value, field and metadata passed through unchanged
+    NOT_ATTRS = ["not var.is_attributes"]
+    db.add(Contract(
+        f"{DD}.bind_value", variant="scalar-goes-to-bind_text",
+        params={**VAL, "recursive": "bool"},
+        requires=NOT_ATTRS + ["not isinstance(value, dict)", "recursive or not (var.list_element and isinstance(value, list))"],
+        ensures=[("bound-as-text", "called('DictDecoder.bind_text') == 1 and call_arg('DictDecoder.bind_text', 1) is meta and "
+                                  "call_arg('DictDecoder.bind_text', 2) is var and call_arg('DictDecoder.bind_text', 3) == value"),
+                 ("no-other-binder", "called('DictDecoder.bind_complex_type') == 0 and called('DictDecoder.bind_dataclass') == 0 and "
+                                     "called('DictDecoder.bind_derived_value') == 0")],
+        raises=dict(DOCUMENTED), returns="u:Any", properties=["C04", "C10"],
+    ))
+    db.add(Contract(
+        f"{DD}.bind_value", variant="attributes-field-copies-the-object",
+        params={**VAL, "recursive": "bool"},
+        requires=["var.is_attributes", "isinstance(value, dict)"],
+        ensures=[("no-binder-involved", "called('DictDecoder.bind_text') == 0 and called('DictDecoder.bind_complex_type') == 0 and "
+                                        "called('DictDecoder.bind_dataclass') == 0 and called('DictDecoder.bind_derived_value') == 0")],
+        raises={}, returns="u:Any", properties=["C04"],
     ))
     db.add(Contract(
         f"{DD}.bind_text", variant="documented-errors", call_default=True,
